@@ -1,6 +1,7 @@
 package main
 
 import (
+	"sort"
 	"context"
 	"fmt"
 	"os"
@@ -203,8 +204,29 @@ func (p *Prog) verifyFunc(fn *ssa.Function, ct *Contract) (fx *Fx, err error) {
 		vars[k] = v // named local values as of function exit (for proof steps)
 	}
 	fx.nvInclusive = false
+	if os.Getenv("GVC_DEBUG_NAMES") != "" {
+		var ks []string
+		for k, v := range vars {
+			d := ""
+			if len(v.L) > 0 {
+				d = v.L[0].Short()
+			}
+			ks = append(ks, k+"="+d)
+		}
+		sort.Strings(ks)
+		fmt.Fprintf(os.Stderr, "[exit names %s%s] %v\n", fx.Name, suffix, ks)
+	}
+	// parameters keep their entry values (Go parameters are locals; contracts speak about the arguments);
+	// every other name denotes the local as of this exit
+	isParam := map[string]bool{}
+	for _, prm := range fn.Params {
+		isParam[prm.Name()] = true
+		isParam[prm.Name()+"0"] = true
+	}
 	for k, v := range fx.entryVarsM {
-		vars[k] = v
+		if _, have := vars[k]; !have || isParam[k] {
+			vars[k] = v
+		}
 	}
 	// captured variables: <name> is the value at exit, <name>0 the value at entry
 	for _, fv := range fn.FreeVars {
@@ -294,7 +316,12 @@ func (p *Prog) verifyFunc(fn *ssa.Function, ct *Contract) (fx *Fx, err error) {
 	}
 	for i, f := range ct.Fresh {
 		v := p.elab(fx, f, post)
-		fx.oblige(fin, "post", fmt.Sprintf("fresh%d:%s", i+1, f.String()), Or(Eq(v.L[objLeaf(v)], IntConst(0)), p.isFresh(fx, v.L[objLeaf(v)])), fn.Pos())
+		// (fresh X) makes X a non-nil local object of every caller: the callee must never return nil there
+		fx.oblige(fin, "post", fmt.Sprintf("fresh%d:%s", i+1, f.String()), And(Not(Eq(v.L[objLeaf(v)], IntConst(0))), p.isFresh(fx, v.L[objLeaf(v)])), fn.Pos())
+	}
+	for i, f := range ct.FreshOrNil {
+		v := p.elab(fx, f, post)
+		fx.oblige(fin, "post", fmt.Sprintf("freshornil%d:%s", i+1, f.String()), Or(Eq(v.L[objLeaf(v)], IntConst(0)), p.isFresh(fx, v.L[objLeaf(v)])), fn.Pos())
 	}
 	for i, ff := range ct.FreshFields {
 		v := p.elab(fx, &SExp{IsL: true, List: []*SExp{{Atom: "field"}, ff.List[1], ff.List[2]}}, post)
